@@ -86,6 +86,26 @@ def _canon(fname, res, upper=False):
     return _dense(res)
 
 
+def _isclose_variant(case, spec, op, base, other):
+    """keyword arguments of torch.isclose (rtol / atol / equal_nan) must reach the comparison: -> (kwargs, operator, its dense value, other)"""
+    v = (case["rseed"] >> 3) % 4
+    if v == 1:
+        return dict(atol=1.5), op, base, other  # the entry moved by 1.0 is close again
+    if v == 2:
+        return dict(rtol=0.0, atol=0.0), op, base, other
+    if v == 3 and spec["cls"] == "Dense" and base.shape[-1] >= 2:
+        # NaNs at matching positions (a dense operator can hold them): equal only with equal_nan=True
+        from linear_operator.operators import DenseLinearOperator
+
+        bn = base.clone()
+        bn[..., 0, -1] = float("nan")
+        on = other.clone()
+        on[..., 0, -1] = float("nan")
+        on[..., -1, 0] = float("nan")
+        return dict(equal_nan=True), DenseLinearOperator(bn), bn, on
+    return {}, op, base, other
+
+
 def run_case(case, ctx):
     mode, fn, cname = case["mode"], case["fn"], case["cls"]
     rng = random.Random(case["rseed"])
@@ -265,6 +285,9 @@ def run_case(case, ctx):
             base = op.to_dense().detach()
             lhs = base.clone()
             lhs[..., 0, 0] += 1.0
+            kwv, opv, basev, lhs = _isclose_variant(case, spec, op, base, lhs)
+            judge("torch." + fn + "(tensor,op)" + (f"[{','.join(sorted(kwv))}]" if kwv else ""), lambda: f(lhs, opv, **kwv), lambda: f(lhs, basev, **kwv))
+            return
         judge("torch." + fn + "(tensor,op)", lambda: f(lhs, op), lambda: f(lhs, base))
         return
 
@@ -344,7 +367,8 @@ def run_case(case, ctx):
         base = op.to_dense().detach()
         o2 = base.clone()
         o2[..., 0, 0] += 1.0
-        judge("torch." + fn, lambda: f(op, o2), lambda: f(base, o2), lambda: meth(o2))
+        kwv, opv, basev, o2 = _isclose_variant(case, spec, op, base, o2)
+        judge("torch." + fn + (f"[{','.join(sorted(kwv))}]" if kwv else ""), lambda: f(opv, o2, **kwv), lambda: f(basev, o2, **kwv), lambda: getattr(opv, mname)(o2, **kwv))
     elif fn == "permute":
         nb = len(batch)
         dims = list(range(nb))[::-1] + [nb, nb + 1]
